@@ -1715,6 +1715,7 @@ theorem C18_pin_skeleton : FactsC18.skeleton = [
   ("v1.SemaDBHandlers.HandleInsertPoints", "if len(point.Vector) != int(collection.IndexSchema[\"vector\"].VectorVamana.VectorSize)"),
   ("v1.SemaDBHandlers.HandleInsertPoints", "if len(point.Id) > 0"),
   ("v1.SemaDBHandlers.HandleInsertPoints", "if err != nil"),
+  ("v1.SemaDBHandlers.HandleInsertPoints", "if err != nil"),
   ("v1.SemaDBHandlers.HandleInsertPoints", "if len(binaryPointData) > collection.UserPlan.MaxPointSize"),
   ("v1.SemaDBHandlers.HandleInsertPoints", "if errors.Is(err, cluster.ErrQuotaReached)"),
   ("v1.SemaDBHandlers.HandleInsertPoints", "if errors.Is(err, cluster.ErrShardUnavailable)"),
@@ -1726,6 +1727,7 @@ theorem C18_pin_skeleton : FactsC18.skeleton = [
   ("v1.UpdatePointsRequest.Validate", "if err != nil"),
   ("v1.SemaDBHandlers.HandleUpdatePoints", "if err != nil"),
   ("v1.SemaDBHandlers.HandleUpdatePoints", "if len(point.Vector) != int(collection.IndexSchema[\"vector\"].VectorVamana.VectorSize)"),
+  ("v1.SemaDBHandlers.HandleUpdatePoints", "if err != nil"),
   ("v1.SemaDBHandlers.HandleUpdatePoints", "if err != nil"),
   ("v1.SemaDBHandlers.HandleUpdatePoints", "if len(binaryPointData) > collection.UserPlan.MaxPointSize"),
   ("v1.SemaDBHandlers.HandleUpdatePoints", "if err != nil"),
